@@ -45,3 +45,29 @@ def nomen_check(ctx):
 
 
 CHECKS = {'C15': rating_check, 'C16': nomen_check}
+
+
+CFG_ALLOC = 'CONSTANTS\n Seed = %d\n K = %d\nINIT Init\nNEXT Next\nINVARIANTS LenVecExact FailsReallyFail EmitL\nCHECK_DEADLOCK FALSE\n'
+
+
+def alloc_check(ctx):
+    ctx.build_harness()
+    thorough = ctx.tier == 'thorough'
+    r = ctx.tlc('MC_Alloc', CFG_ALLOC % (ctx.seed, 12 if thorough else 2))
+    s = ctx.harness('alloccases', prop='C17', **{'in': r['out']})
+    nmeas = sum(s['compared'].values())
+    cov = dict(evaluations=nmeas, distinct_nontrivial=s['distinct_nontrivial'],
+               rule='TLC (MC_Alloc) enumerates per version: base objects, each optional metric alone x each value (U:Clear/Green/Amber/Red '
+                    'included), adjacent pairs, all, seeded objects; checks LenVec(o) = length of the canonical string (the pre-sizing '
+                    'mechanism) and states the budget; the harness measures, per object, runtime.MemStats.Mallocs around Vector() (=1), '
+                    'ParseVector of its vector (<=1, also right after each kind of failing parse), Get / Set legal / Set illegal on every metric '
+                    '(=0), every scoring method, Rating, Nomenclature (=0); minimum over 12 (thorough 40) samples, GC off during a sample, '
+                    'GOMAXPROCS(1); distinct_nontrivial = objects measured',
+               samples=s['samples'], compared=s['compared'], states=ctx.states()[0], transitions=ctx.states()[1],
+               traces_validated_against_impl=s['distinct'], exhaustive=False)
+    return core.finish(ctx, 'exploration', cov, list(s['violations']), [
+        'toolchain = the installed go; hooks compiled in (tag verif) but idle',
+        'the specification states the budget and the pre-sizing mechanism only; nothing is model-checked about the Go allocator'])
+
+
+CHECKS['C17'] = alloc_check
